@@ -112,6 +112,23 @@ coupling  SYSTEM-BATH COUPLING OPERATORS OTHER THAN "bath k = projector on site 
         kappa = sqrt(2 kT sum_k lam_k (c_ka-c_kb)^2) / min gamma_k.  Keys:
           coupling/<class>/...
 
+steps   THE PROPAGATOR'S OWN TIME AXIS IS NOT THE AXIS OF THE BATH.  KTHierarchyPropagator(
+        timeaxis, hierarchy) takes ITS time axis as an argument; the bath correlation functions
+        (SystemBathInteraction.TimeAxis) may have been defined on another one - a time-step
+        convergence study, a bath tabulated once and reused.  Step ratio r = (step of the
+        propagation axis) / (step of the bath axis) over the alphabet STEP_RATIOS (1 = a
+        separately built axis of the same step; finer and coarser; thorough: also a
+        non-integer ratio) x (system x construction path {direct, agg-h} x propagation axis) x
+        every spanning state x depths.  The bath axis TimeAxis(0, ~1.2 span / bath step, bath
+        step) also differs in LENGTH from the propagation axis for every ratio (1 included).
+        The stored evolution belongs to the PROPAGATOR's times: all oracles of section dyn are
+        evaluated there (closed-system/*, analytic/*, trace/*, hermiticity/*; the propagation
+        axes are the calibrated ones of section dyn, only the bath axis varies) plus class R
+        equality with the same system whose bath was defined on the propagation axis itself
+        (the hierarchy is built from the bath PARAMETERS, heom.py:KTHierarchy.__init__).  Keys
+        carry the prefix
+          time-step/...   and   time-step/differs-from-bath-defined-on-the-propagation-axis/<system>
+
 calls   PROPAGATION-CALL HISTORIES ON ONE PROPAGATOR OBJECT.  A call is (option, initial
         state); options = {o: propagate(rho), f: propagate(rho, free_hierarchy=True),
         r: propagate(rho, report_hierarchy=True)} (thorough: also both flags).  Product
@@ -280,13 +297,22 @@ def _build(case, depth):
     n = len(en)
     J = case.get("J") or [[0.0] * n for _ in range(n)]
     ta = systems.time_axis(int(case["nt"]), float(case["dt"]), float(case.get("t0", 0.0)))
+    # tb: the axis the bath correlation functions are defined on; the propagator gets `ta`
+    tb = ta
+    if case.get("bath_axis"):
+        if case["via"] not in ("direct", "agg-h"):
+            raise isolation.HarnessError("a propagation axis of its own needs the propagator "
+                                         "constructed separately (direct, agg-h)")
+        tb = systems.time_axis(int(case["bath_axis"]["nt"]), float(case["bath_axis"]["dt"]))
+        if tb is ta:
+            raise isolation.HarnessError("bath axis and propagation axis are one object")
     baths = _bath_list(case["bath"], n)
     uctx = case.get("uctx") or {}
     if case.get("coupling") and case["via"] != "direct":
         raise isolation.HarnessError("general coupling operators: direct construction only")
     uh, up = uctx.get("h"), uctx.get("p")
     if case["via"] in ("agg", "agg-h"):
-        agg = systems.aggregate(en, J=J, bath=baths, ta=ta, e0=float(case.get("e0", 0.0)))
+        agg = systems.aggregate(en, J=J, bath=baths, ta=tb, e0=float(case.get("e0", 0.0)))
         isolation.reset_units()
         if case.get("sec") == "index":
             hy = agg.get_KTHierarchy(depth)
@@ -306,9 +332,9 @@ def _build(case, depth):
             hy = pr.hy
     else:
         if case.get("coupling"):
-            ham, sbi = _ham_sbi_general(en, J, baths, ta, e0=float(case.get("e0", 0.0)))
+            ham, sbi = _ham_sbi_general(en, J, baths, tb, e0=float(case.get("e0", 0.0)))
         else:
-            ham, sbi = systems.ham_sbi(en, J, baths, ta, e0=float(case.get("e0", 0.0)))
+            ham, sbi = systems.ham_sbi(en, J, baths, tb, e0=float(case.get("e0", 0.0)))
         isolation.reset_units()
         if case.get("jphase"):
             ham = _complex_hamiltonian(en, J, float(case.get("e0", 0.0)), case["jphase"])
@@ -458,6 +484,31 @@ def _zero_start_reference(case, depth):
     return _T0_REF[key]
 
 
+_SAME_AXIS_REF = {}
+
+
+def _same_axis_reference(case, depth):
+    """The same system, construction path, depth and initial state with the bath correlation
+    functions defined on the propagation axis itself.  Deterministic; memoised per worker
+    process (the reference does not depend on the bath axis of the case)."""
+    key = repr((case["energies"], case.get("J"), case["bath"], case["via"], case["rwa"],
+                case["nt"], case["dt"], case.get("e0", 0.0), case.get("jphase", 0), depth,
+                case["state"]))
+    if key not in _SAME_AXIS_REF:
+        if len(_SAME_AXIS_REF) > 64:
+            _SAME_AXIS_REF.clear()
+        qr = isolation.qr()
+        c0 = dict(case)
+        c0.pop("bath_axis", None)
+        pr0, hy0, ta0 = _build(c0, depth)
+        if hy0.sbi.TimeAxis is not ta0:
+            raise isolation.HarnessError("reference: the bath is not on the propagation axis")
+        rho0 = spanning_states(len(case["energies"]) + 1)[case["state"]][1]
+        _SAME_AXIS_REF[key] = numpy.array(
+            pr0.propagate(qr.ReducedDensityMatrix(data=rho0.copy())).data)
+    return _SAME_AXIS_REF[key]
+
+
 def eval_dyn(case):
     qr = isolation.qr()
     en = case["energies"]
@@ -478,9 +529,11 @@ def eval_dyn(case):
     uctx = case.get("uctx") or None
     t0 = float(case.get("t0", 0.0))
     coupling = case.get("coupling") or None
-    if (1 if uctx else 0) + (1 if t0 != 0.0 else 0) + (1 if coupling else 0) > 1:
-        raise isolation.HarnessError("units context / axis start / coupling operators are "
-                                     "separate sub-products")
+    baxis = case.get("bath_axis") or None
+    if (1 if uctx else 0) + (1 if t0 != 0.0 else 0) + (1 if coupling else 0) \
+            + (1 if baxis else 0) > 1:
+        raise isolation.HarnessError("units context / axis start / coupling operators / bath "
+                                     "axis are separate sub-products")
     prefix, ctxdesc = "", ""
     if uctx:
         prefix = "units-context/%s/" % _uctx_site(uctx)
@@ -492,6 +545,11 @@ def eval_dyn(case):
         prefix = "axis-start/"
         ctxdesc = "[time axis TimeAxis(%g, %d, %g), path %s] " % (t0, case["nt"], case["dt"],
                                                                  case["via"])
+    if baxis:
+        prefix = "time-step/"
+        ctxdesc = "[propagator on TimeAxis(0, %d, %g), bath correlation functions defined on " \
+                  "TimeAxis(0, %d, %g), path %s] " % (case["nt"], case["dt"], baxis["nt"],
+                                                      baxis["dt"], case["via"])
     Vs = None
     if coupling:
         prefix = "coupling/%s/" % coupling
@@ -500,6 +558,7 @@ def eval_dyn(case):
             coupling, "; ".join("V_%d = %s" % (k, _op_str(v)) for k, v in enumerate(Vs)))
     worst_ctx = 0.0
     worst_t0 = 0.0
+    worst_bax = 0.0
     ctx_root = False
 
     def add(key, what, det=None, raw=False):
@@ -567,6 +626,12 @@ def eval_dyn(case):
         t_abs = numpy.array(ta.data, dtype=float)
         if t_abs[0] != t0:
             raise isolation.HarnessError("time axis starts at %r, specified %r" % (t_abs[0], t0))
+        # times on which the bath correlation functions were sampled (bath guard only)
+        tb_abs = t_abs
+        if baxis:
+            if len(t_abs) != int(case["nt"]) or float(ta.step) != float(case["dt"]):
+                raise isolation.HarnessError("propagation axis is not the specified one")
+            tb_abs = float(baxis["dt"]) * numpy.arange(int(baxis["nt"]), dtype=float)
         # the initial state belongs to the FIRST point of the axis: all references are
         # functions of the elapsed time (for an axis starting at zero: t - 0.0 = t exactly)
         t = t_abs - t_abs[0]
@@ -608,6 +673,23 @@ def eval_dyn(case):
                     "depth %d state %s: result differs by %.3g (first at stored index %d) "
                     "from the same system on TimeAxis(0, %d, %g)"
                     % (depth, label, e_t0, k, case["nt"], case["dt"]),
+                    {"depth": depth, "time_index": k})
+        # ---- same system with the bath defined on the propagation axis itself ---------
+        if baxis:
+            d0 = _same_axis_reference(case, depth)
+            if d0.shape != d.shape or not numpy.all(numpy.isfinite(d0)):
+                raise isolation.HarnessError("reference with the bath on the propagation axis "
+                                             "is not finite")
+            dev_t = numpy.max(numpy.abs(d - d0), axis=(1, 2))
+            e_b = float(numpy.max(dev_t))
+            worst_bax = max(worst_bax, e_b)
+            tol_b = RTOL * max(1.0, float(numpy.max(numpy.abs(d0))))
+            if e_b > tol_b:
+                k = int(numpy.argmax(dev_t > tol_b))
+                add("differs-from-bath-defined-on-the-propagation-axis/%s" % sysname,
+                    "depth %d state %s: result differs by %.3g (first at stored index %d) "
+                    "from the same system whose bath correlation functions are defined on the "
+                    "propagation axis" % (depth, label, e_b, k),
                     {"depth": depth, "time_index": k})
         # ---- trace and Hermiticity at every stored time -----------------------
         tr = numpy.trace(d, axis1=1, axis2=2)
@@ -665,7 +747,7 @@ def eval_dyn(case):
                 lam, gam, kBT = LS.bath_params_int(b)
                 gs.append(LS.g_ht(t, lam, gam, kBT))
                 c_lib = numpy.array(hy.sbi.CC.get_correlation_function(k, k).data)
-                c_ref = LS.corfce_ht(t_abs, lam, gam, kBT)
+                c_ref = LS.corfce_ht(tb_abs, lam, gam, kBT)
                 sc_c = max(float(numpy.max(numpy.abs(c_ref))), 1e-300)
                 if c_lib.shape != c_ref.shape or \
                         float(numpy.max(numpy.abs(c_lib - c_ref))) > BATH_GUARD_RTOL * sc_c:
@@ -719,7 +801,10 @@ def eval_dyn(case):
     excited_pop = 1 <= case["state"] < N
     nontrivial = bool((superpos or (coupled and excited_pop)) and moved > 1e-6)
     info = {"sec": "ctx" if uctx else "starts" if t0 != 0.0 else "coupling" if coupling
-            else "dyn", "worst_ctx": worst_ctx, "ctx_root": ctx_root, "worst_t0": worst_t0,
+            else "steps" if baxis else "dyn",
+            "worst_ctx": worst_ctx, "ctx_root": ctx_root, "worst_t0": worst_t0,
+            "worst_bax": worst_bax,
+            "step_ratio": float(case["dt"]) / float(baxis["dt"]) if baxis else None,
             "t0": t0, "coupling": coupling, "solvable": solvable, "nbath": len(baths),
             "worst": worst, "errs": errs if analytic_applies else None,
             "amp": amp, "analytic": bool(analytic_applies), "skipped": analytic_skipped,
@@ -737,6 +822,8 @@ def eval_dyn(case):
         outcome.append(["t0", t0])
     if coupling:
         outcome.append(["coupling", coupling, [b["cortime"] for b in baths]])
+    if baxis:
+        outcome.append(["bath-axis", baxis["nt"], baxis["dt"]])
     if deep:
         outcome.append(["deep", depths, [b["cortime"] for b in baths], case["nt"]])
     return {"nontrivial": nontrivial, "outcome": outcome, "violations": viol,
@@ -1452,6 +1539,65 @@ def starts_cases(tier):
     return out
 
 
+# ---- the propagator's own time axis is not the axis of the bath ---------------------------
+# r = (step of the propagation axis) / (step of the bath axis); 1 = a separately built axis of
+# the same step (and another length)
+STEP_RATIOS = {"quick": [1.0, 0.5, 2.0], "thorough": [1.0, 0.25, 0.5, 2.0, 2.5, 4.0]}
+BATH_SPAN = 1.2         # the bath is tabulated over 1.2 x the propagated interval
+
+
+def _bath_axis(nt, dt, ratio):
+    bdt = float(dt) / float(ratio)
+    bnt = int(round(BATH_SPAN * nt * dt / bdt))
+    if bnt == nt:
+        raise isolation.HarnessError("bath axis has the length of the propagation axis")
+    return {"nt": bnt, "dt": bdt}
+
+
+def steps_cases(tier):
+    """(step ratio) x (system x construction path x propagation axis) x every spanning state
+    x depths.  The propagation axes are those of section dyn / starts (calibrated class Q
+    numbers); the axis of the bath correlation functions varies."""
+    out = []
+
+    def add(energies, J, bath, via, nt, dt, depths, e0=0.0, jphase=0, rwa="blocks"):
+        N = len(energies) + 1
+        for r in STEP_RATIOS[tier]:
+            for s in range(N * N):
+                c = {"sec": "dyn", "energies": energies, "J": J, "bath": bath, "via": via,
+                     "rwa": rwa, "nt": nt, "dt": dt, "state": s, "depths": depths,
+                     "e0": e0, "bath_axis": _bath_axis(nt, dt, r)}
+                if jphase:
+                    c["jphase"] = jphase
+                out.append(c)
+
+    mixed2 = [_bath(30, 50), _bath(20, 40)]
+    dim = [E0, E0 + 200.0]
+    if tier == "quick":
+        # analytic clause, optical coherence
+        add([E0], None, _bath(30.0), "direct", 50, 2.0, [0, 3, 5])
+        # zero coupling strength: closed-system clause
+        add(dim, _J(2, 100.0), _bath(0.0), "direct", 50, 2.0, [0, 2])
+        # uncoupled sites, different baths: inter-site analytic clause (hierarchy from the
+        # builder accessor, propagator constructed by the caller)
+        add(dim, _J(2, 0.0), mixed2, "agg-h", 30, 2.0, [3, 5])
+        return out
+    for via in ("agg-h", "direct"):
+        for nt, dt in ((100, 1.0), (50, 2.0)):
+            add([E0], None, _bath(30.0), via, nt, dt, [0, 2, 4, 6])
+            add(dim, _J(2, 100.0), _bath(0.0), via, nt, dt, [0, 2])
+            add(dim, _J(2, 0.0), mixed2, via, nt, dt, [0, 3, 6])
+        # coupled open system: equality with the bath on the propagation axis, trace,
+        # Hermiticity
+        add(dim, _J(2, 100.0), _bath(30.0), via, 50, 2.0, [0, 2, 4])
+    add([E0 + 300.0], None, _bath(30.0), "direct", 50, 2.0, [0, 2, 4, 6], e0=300.0)
+    add(dim, _J(2, 0.0), _bath(30.0), "direct", 50, 2.0, [0, 3, 6], rwa="per-site")
+    en3 = [E0, E0 + 200.0, E0 - 100.0]
+    add(en3, _J(3, 100.0), _bath(0.0), "direct", 50, 2.0, [0, 2])
+    add(en3, systems.full_J(3, [100.0]), _bath(0.0), "direct", 50, 2.0, [0, 2], jphase=30)
+    return out
+
+
 # ---- system-bath coupling operators that are not the site projectors in site order ------
 def _diag_op(N, coeffs):
     """Diagonal operator sum_a coeffs[a] |a><a| as a nested list (coeffs: {state: c})."""
@@ -1602,7 +1748,8 @@ def calls_cases(tier):
 
 def cases(tier):
     return (index_cases(tier) + hist_cases(tier) + dyn_cases(tier) + ctx_cases(tier)
-            + starts_cases(tier) + coupling_cases(tier) + calls_cases(tier))
+            + starts_cases(tier) + steps_cases(tier) + coupling_cases(tier)
+            + calls_cases(tier))
 
 
 # ----------------------------------------------------------------------------
@@ -1649,7 +1796,12 @@ def run(run):
                 "product (axis start t0 != 0 of the alphabet x system x construction path x "
                 "time step) x every spanning state x depths, oracles and non-triviality of "
                 "dyn on the elapsed time plus class R equality with the axis starting at "
-                "zero; coupling: full product (system x coupling class of the alphabet x "
+                "zero; steps: full product (ratio of the step of the propagation axis to the "
+                "step of the axis the bath correlation functions were defined on x system x "
+                "construction path with a separately constructed propagator x propagation "
+                "axis) x every spanning state x depths, oracles and non-triviality of dyn at "
+                "the propagator's own times plus class R equality with the bath defined on the "
+                "propagation axis; coupling: full product (system x coupling class of the alphabet x "
                 "{given strength, zero}) x every spanning state x depths, oracles and "
                 "non-triviality of dyn with the exact solution of the commuting model")
     run.assumptions = [
@@ -1692,6 +1844,14 @@ def run(run):
         "k*dt.  The bath guard compares the attached C(t) samples on the absolute times of "
         "the axis (that is where the library samples them); the hierarchy uses only the "
         "parameters",
+        "steps: KTHierarchyPropagator(timeaxis, hierarchy) integrates on, and labels its "
+        "result with, the time axis it is given; the bath enters the hierarchy only through "
+        "its parameters (reorganisation energy, correlation time, temperature), so the axis "
+        "the correlation functions were tabulated on (0 .. %g x the propagated interval, its "
+        "own step) has no influence on the dynamics.  The bath guard compares the attached "
+        "C(t) samples on the times of the BATH axis.  The one-call accessor "
+        "get_KTHierarchyPropagator always uses the bath axis and is not in this sub-product"
+        % BATH_SPAN,
         "coupling: operators are real symmetric matrices (SystemBathInteraction stores real "
         "operators), handed over through SystemBathInteraction(list of Operator, "
         "CorrelationFunctionMatrix) - direct construction only (the aggregate builder makes "
@@ -1761,6 +1921,16 @@ def run(run):
                               "50 x 2 fs); agg-h; per-site rotating-wave reference; trimers: "
                               "chain lambda {0,30}, complex ring, uncoupled mixed baths",
                    "initial states": "all N^2 members of the spanning set"},
+        "steps": {"step ratios (propagation axis / bath axis)": STEP_RATIOS[run.tier],
+                  "bath axis": "TimeAxis(0, %g x span / bath step, bath step)" % BATH_SPAN,
+                  "systems": "monomer lambda 30 (direct, 50 x 2 fs); coupled dimer lambda 0 "
+                             "(direct, 50 x 2 fs); uncoupled dimer, two different baths (agg-h, "
+                             "30 x 2 fs)" if q else
+                             "paths {agg-h, direct} x (100 x 1 fs, 50 x 2 fs) x {monomer lambda "
+                             "30; coupled dimer lambda 0; uncoupled dimer mixed baths}; coupled "
+                             "open dimer; ground state off zero; per-site rotating-wave "
+                             "reference; trimers lambda 0: chain, complex ring",
+                  "initial states": "all N^2 members of the spanning set"},
         "coupling": {"classes": {"%d site(s)" % k: [c for c, _ in coupling_alphabet(k)]
                                  for k in (1, 2, 3)},
                      "quick tier leaves to thorough": ["two-baths-on-one-site (dimer)",
@@ -1867,6 +2037,20 @@ def run(run):
                                                or [0.0]),
         "analytic_cases": sum(1 for i in sinfos if i["analytic"] and i["errs"]),
         "analytic_rel_error_at_Dmax": _worst_final(sinfos)})
+    # ---- the propagator's own time axis is not the axis of the bath ---------------------
+    tc = steps_cases(run.tier)
+    order = sorted(range(len(tc)), key=lambda i: -(len(tc[i]["energies"]) * 10
+                                                   + max(tc[i]["depths"])))
+    tinfos = run_grid(run, [tc[i] for i in order], eval_case, section="steps", chunksize=1)
+    run.note(propagation_axis_vs_bath_axis={
+        "cases": len(tinfos), "step_ratios": sorted(set(i["step_ratio"] for i in tinfos)),
+        "worst_deviation_from_bath_defined_on_the_propagation_axis":
+            max([i["worst_bax"] for i in tinfos] or [0.0]),
+        "closed_system_cases": sum(1 for i in tinfos if all(l == 0.0 for l in i["lam"])),
+        "closed_system_fraction_of_bound": max([i["worst"]["closed_ratio"] for i in tinfos]
+                                               or [0.0]),
+        "analytic_cases": sum(1 for i in tinfos if i["analytic"] and i["errs"]),
+        "analytic_rel_error_at_Dmax": _worst_final(tinfos)})
     # ---- system-bath coupling operators other than the site projectors in site order ---
     kc = coupling_cases(run.tier)
     order = sorted(range(len(kc)), key=lambda i: -(len(kc[i]["energies"]) * 10
